@@ -93,6 +93,22 @@ let handle (line : string) : string =
                        (text_of cps) (nat_of_int (atom_int k)) in
            pr_res res
        | _ -> failwith "P: arguments")
+  | "C" ->
+      (* C rule lo hi fuel : code points c in [lo, hi] for which parse rule [c] 0 succeeds, as ranges *)
+      (match List.map int_of_string (List.filter (fun w -> w <> "") (String.split_on_char ' ' rest)) with
+       | [r; lo; hi; fuel] ->
+           let rid = n_of_int r and fu = nat_of_int fuel in
+           let b = Buffer.create 256 in
+           let start = ref (-1) in
+           for c = lo to hi + 1 do
+             let hit = c <= hi &&
+               (match parse !grammar fu rid [n_of_int c] O with Ok (_, _) -> true | _ -> false) in
+             if hit && !start < 0 then start := c
+             else if (not hit) && !start >= 0 then begin
+               Buffer.add_string b (Printf.sprintf "%d-%d," !start (c - 1)); start := -1 end
+           done;
+           Buffer.contents b
+       | _ -> failwith "C")
   | _ -> Ext.handle cmd rest
 
 let () =
